@@ -103,6 +103,22 @@ func driveDP(p *Plan, shard int, w *Writer, t *codec.Table) {
 		} else {
 			w.Emit(shard, Rec{"sess": id, "op": "Equals", "res": drive.Res{St: "err", Msg: "no patched document"}})
 		}
+		// the patched document is a document like any other: diffing it against b (it Equals b) must give an empty diff
+		if full.St == "ok" && patched != nil {
+			var n1, n2 int
+			var eqp bool
+			rr := drive.Guard(func() drive.Res {
+				jb, err := v.InjectB(b, yaml)
+				if err != nil {
+					return drive.Res{St: "err", Msg: err.Error()}
+				}
+				opts := v.Options(o)
+				eqp = patched.Equals(jb, opts...)
+				n1, n2 = len(patched.Diff(jb, opts...)), len(jb.Diff(patched, opts...))
+				return drive.Res{St: "ok"}
+			})
+			w.Emit(shard, Rec{"sess": id, "op": "Rediff", "st": rr.St, "eq": eqp, "n1": n1, "n2": n2})
+		}
 		// Equals(a, b) on fresh documents, for the empty-iff-equal clause
 		w.Emit(shard, Rec{"sess": id, "op": "EqualsAB", "res": v.Equals(a, b, o, yaml)})
 		// the statement once more on one set of live values: Patch on the very a the diff was computed from
